@@ -1,7 +1,355 @@
-"""C15 — not implemented yet (fail closed)."""
-from ..model import AnalysisError
+"""C15 Grouping, ungrouping, sorting never lose, duplicate or split entries — conservation and ordering discipline."""
+
+from __future__ import annotations
+
+import ast
+from typing import Dict, List, Optional, Set, Tuple
+
+from ..cfg import Node
+from ..core import Ctx, Report, snippet, where
+from ..model import Class, Func, own_nodes, src
+from ..pathsem import function_paths, resolve_local
+from ..typeinf import classes_of, elem
+from .c03 import SIBLINGS, r03_3
+from .c19 import splice_rule
+from .common import chain, deep_resolve, derived_names, element_placements, loop_body_paths, mentions, order_of, possible_classes
+
 PROPERTY = "C15"
 LEVEL = "other"
-EXPLANATION = "not implemented"
-def run(ctx, rep, tier):
-    raise AnalysisError("rules for C15 are not implemented yet")
+EXPLANATION = (
+    "Decides conservation (every loop that moves items between the flat list, the heading buckets and the groups places "
+    "each entry exactly once, in order; every non-empty bucket becomes a group that adopts the same objects; a bucket is "
+    "never overwritten), the ordering discipline sorting relies on (sequence numbers decide first in every __lt__; source "
+    "and destination comparison helpers agree), that list operations act on the stored list itself so a block moves as "
+    "a unit, and that the TCAM estimate is a pure query (+1 for the ACL). Does not decide the outcome of sorts, the product "
+    "formula of tcam_count or text equality after group/ungroup."
+)
+ASSUMPTIONS = ["list.sort / sorted are stable and use __lt__ only"]
+
+
+def _static_elem(ctx: Ctx, f: Func, it: ast.AST) -> List[Class]:
+    t = ctx.types.expr_type(it, f)
+    return classes_of(elem(t))
+
+
+def linear_loop(ctx: Ctx, rep: Report, f: Func, loop: Node, what: str, allow_zero_for: Set[str] = frozenset({"Remark"})) -> None:
+    """R15.1: every path through the loop body places the element exactly once (0 allowed only on Remark-only paths)."""
+    cfg = ctx.cfg(f)
+    var = src(loop.ast.target)
+    static = _static_elem(ctx, f, loop.ast.iter)
+    n_paths = 0
+    for path in loop_body_paths(cfg, loop):
+        if path[-1][0] is cfg.raise_exit:
+            continue
+        atoms = [(n.ast, lab == "T") for n, lab in path if n.kind == "cond" and lab in ("T", "F")]
+        poss = possible_classes(ctx, static, atoms, var)
+        if poss is not None and not poss:
+            continue
+        places = []
+        der = derived_names(path, var)
+        for node, lab in path:
+            if node.kind == "stmt" and node.ast is not None:
+                places += element_placements(node.ast, var, der)
+        n_paths += 1
+        rep.instance()
+        label = " & ".join(f"{snippet(t, 28)}={'T' if tr else 'F'}" for t, tr in atoms) or "unconditional"
+        if len(places) == 1:
+            rep.ok(f"{f.qualname} [{what}]: path [{label}]", f"element placed once ({places[0][0]})", where=where(f, loop.ast))
+        elif len(places) == 0 and poss is not None and poss <= allow_zero_for:
+            rep.ok(f"{f.qualname} [{what}]: path [{label}]", f"element dropped only when it is a {'/'.join(sorted(poss))} (repeated heading remark: accepted, pinned by the suite and CHANGELOG 3.2.4)", nontrivial=False, where=where(f, loop.ast))
+        else:
+            who = "/".join(sorted(poss)) if poss else "an entry"
+            rep.violation(
+                f.qualname,
+                f"{what}: path [{label}] places the element {len(places)} times",
+                f"on this path {who} is {'lost' if not places else 'duplicated'}: grouping/ungrouping must carry every entry over exactly once",
+                where(f, loop.ast),
+                path=[repr(n) for n, _ in path],
+            )
+    if n_paths == 0:
+        rep.violation(f.qualname, what, "no feasible path through the loop body", where(f, loop.ast))
+
+
+def r15_1(ctx: Ctx, rep: Report) -> None:
+    rep.rule("R15.1")
+    g = ctx.func("Acl.group")
+    cfg = ctx.cfg(g)
+    loops = [n for n in cfg.live if n.kind == "for"]
+    rep.require(len(loops) >= 3, "Acl.group no longer has its three loops (flatten, bucket, build)")
+    # flatten loop: iterates self._items
+    flat = [l for l in loops if src(l.ast.iter) in ("self._items", "self.items")]
+    rep.require(bool(flat), "Acl.group: flatten loop over self._items vanished")
+    linear_loop(ctx, rep, g, flat[0], "flatten")
+    flat_acc = None
+    for n in own_nodes(flat[0].ast):
+        if isinstance(n, ast.Call) and isinstance(n.func, ast.Attribute) and n.func.attr in ("append", "extend"):
+            flat_acc = src(n.func.value)
+    bucket = [l for l in loops if flat_acc and src(l.ast.iter) == flat_acc]
+    rep.require(bool(bucket), "Acl.group: bucketing loop over the flattened list vanished")
+    linear_loop(ctx, rep, g, bucket[0], "bucket")
+    ug = ctx.func("Acl._ungroup")
+    ucfg = ctx.cfg(ug)
+    ul = [n for n in ucfg.live if n.kind == "for"]
+    rep.require(bool(ul), "Acl._ungroup: loop vanished")
+    linear_loop(ctx, rep, ug, ul[0], "ungroup")
+    lg = ctx.func("Acl.line.getter")
+    lcfg = ctx.cfg(lg)
+    ll = [n for n in lcfg.live if n.kind == "for" and src(n.ast.iter) in ("self._items", "self.items")]
+    rep.require(bool(ll), "Acl.line getter: flatten loop vanished")
+    _line_getter_flatten(ctx, rep, lg, ll[0])
+    splice_rule(ctx, rep, "AceGroup.ungroup_ports", rid="R15.1")
+    splice_rule(ctx, rep, "Acl.ungroup_ports", rid="R15.1")
+    rep.rule("R15.1")
+    rep.floor(12, "loop-body paths that move items")
+
+
+def _line_getter_flatten(ctx: Ctx, rep: Report, f: Func, loop: Node) -> None:
+    """Acl.line: groups are flattened in order; every item (or each child of a group) is rendered once."""
+    cfg = ctx.cfg(f)
+    var = src(loop.ast.target)
+    static = _static_elem(ctx, f, loop.ast.iter)
+    for path in loop_body_paths(cfg, loop):
+        if path[-1][0] is cfg.raise_exit:
+            continue
+        atoms = [(n.ast, lab == "T") for n, lab in path if n.kind == "cond" and lab in ("T", "F")]
+        poss = possible_classes(ctx, static, atoms, var)
+        if poss is not None and not poss:
+            continue
+        places = []
+        inner_iter = None
+        for node, lab in path:
+            if node.kind == "stmt" and node.ast is not None:
+                places += element_placements(node.ast, var)
+            if node.kind == "for" and node is not loop:
+                inner_iter = node
+        rep.instance()
+        label = " & ".join(f"{snippet(t, 28)}={'T' if tr else 'F'}" for t, tr in atoms) or "unconditional"
+        if inner_iter is not None and src(inner_iter.ast.iter) in (f"{var}.items", f"{var}._items"):
+            iv = src(inner_iter.ast.target)
+            inner_places = []
+            for node, lab in path:
+                if node.kind == "stmt" and node.ast is not None:
+                    inner_places += element_placements(node.ast, iv)
+            inner_taken = any(node is inner_iter and lab == "body" for node, lab in path)
+            if not inner_taken and not places:
+                rep.ok(f"Acl.line getter: path [{label}] (empty group)", "renders nothing", nontrivial=False, where=where(f, loop.ast))
+            elif len(inner_places) == 1 and not places:
+                rep.ok(f"Acl.line getter: path [{label}]", f"a group is replaced by its children in order ({iv} placed once per child)", where=where(f, loop.ast))
+            else:
+                rep.violation("Acl.line.getter", f"path [{label}]", "a group's children are not rendered exactly once each (or the group itself is rendered too)", where(f, loop.ast))
+        elif len(places) == 1:
+            rep.ok(f"Acl.line getter: path [{label}]", "item rendered once", where=where(f, loop.ast))
+        elif isinstance(path[-2][0].ast, ast.Continue) and inner_iter is None and not places and any("AceGroup" in src(t) and tr for t, tr in atoms):
+            # the empty-group iteration of the inner loop (exit edge taken at once)
+            rep.ok(f"Acl.line getter: path [{label}]", "empty group renders nothing", nontrivial=False, where=where(f, loop.ast))
+        else:
+            rep.violation("Acl.line.getter", f"path [{label}] renders the item {len(places)} times", "an item is missing from or duplicated in the rendered ACL", where(f, loop.ast))
+
+
+def r15_2(ctx: Ctx, rep: Report) -> None:  # noqa: C901
+    rep.rule("R15.2")
+    g = ctx.func("Acl.group")
+    cfg = ctx.cfg(g)
+    # bucket dict: subscript-stored with a list literal
+    dict_name = None
+    lit_store = None
+    for n in cfg.live:
+        if n.kind == "stmt" and isinstance(n.ast, ast.Assign) and isinstance(n.ast.targets[0], ast.Subscript) and isinstance(n.ast.value, ast.List) and n.ast.value.elts:
+            dict_name = src(n.ast.targets[0].value)
+            lit_store = n
+    rep.instance()
+    if dict_name is None or lit_store is None:
+        rep.violation("Acl.group", "bucket dictionary", "no bucket is opened with its heading remark", where(g))
+        return
+    # overwrite guard
+    key = src(lit_store.ast.targets[0].slice)
+    deps = cfg.transitive_control_deps(lit_store)
+    guarded = False
+    for c, lab in deps:
+        if c.kind == "cond" and isinstance(c.ast, ast.Compare) and len(c.ast.ops) == 1 and src(c.ast.comparators[0]) == dict_name:
+            if (isinstance(c.ast.ops[0], ast.NotIn) and lab == "T") or (isinstance(c.ast.ops[0], ast.In) and lab == "F"):
+                guarded = True
+    if guarded:
+        rep.ok(f"Acl.group: {snippet(lit_store.ast)}", f"only when the heading is not yet a key of {dict_name}: a bucket that already holds entries is never replaced", where=where(g, lit_store.ast))
+    else:
+        rep.violation("Acl.group", snippet(lit_store.ast), "a second block with the same heading overwrites the bucket of the first: its entries vanish", where(g, lit_store.ast), inp="two blocks with the identical heading remark")
+    # build loop: every non-empty bucket -> AceGroup(items=bucket) appended, in dict order
+    builds = [n for n in cfg.live if n.kind == "for" and dict_name in src(n.ast.iter)]
+    rep.instance()
+    if not builds:
+        rep.violation("Acl.group", f"for ... in {dict_name}.items()", "the buckets are never turned into groups", where(g))
+        return
+    bl = builds[0]
+    it = src(bl.ast.iter)
+    if any(w in it for w in ("sorted", "reversed")):
+        rep.violation("Acl.group", f"for ... in {it}", "buckets are not visited in insertion order: blocks are reordered", where(g, bl.ast))
+    tvars = [src(e) for e in bl.ast.target.elts] if isinstance(bl.ast.target, ast.Tuple) else [src(bl.ast.target)]
+    bvar = tvars[-1]
+    okpaths = True
+    for path in loop_body_paths(cfg, bl):
+        if path[-1][0] is cfg.raise_exit:
+            continue
+        atoms = [(src(n.ast), lab == "T") for n, lab in path if n.kind == "cond"]
+        nonempty = not any(a == bvar and not tr for a, tr in atoms)
+        env: Dict[str, ast.AST] = {}
+        appended = []
+        for node, lab in path:
+            if node.kind == "stmt" and isinstance(node.ast, ast.Assign) and isinstance(node.ast.targets[0], ast.Name):
+                env[node.ast.targets[0].id] = node.ast.value
+            if node.kind == "stmt" and node.ast is not None:
+                for x in ast.walk(node.ast):
+                    if isinstance(x, ast.Call) and isinstance(x.func, ast.Attribute) and x.func.attr == "append" and len(x.args) == 1:
+                        appended.append(resolve_local(x.args[0], env))
+        if nonempty:
+            good = [a for a in appended if isinstance(a, ast.Call) and src(a.func) == "AceGroup" and any(k.arg == "items" and src(k.value) == bvar for k in a.keywords)]
+            if len(good) != 1 or len(appended) != 1:
+                okpaths = False
+                rep.violation("Acl.group", f"non-empty bucket {bvar}", "a non-empty bucket does not become exactly one AceGroup(items=<bucket>) in the result", where(g, bl.ast))
+    if okpaths:
+        rep.ok(f"Acl.group: for {', '.join(tvars)} in {it}", f"every non-empty bucket becomes one AceGroup(items={bvar}), in insertion order", where=where(g, bl.ast))
+    # the result list is stored
+    rep.instance()
+    st = [n for n in own_nodes(g.node) if isinstance(n, ast.Assign) and any(isinstance(t, ast.Attribute) and src(t.value) == "self" and t.attr == "_items" for t in n.targets)]
+    if st:
+        rep.ok(f"Acl.group: {snippet(st[-1])}", "groups replace the flat list", where=where(g, st[-1]))
+    else:
+        rep.violation("Acl.group", "self._items = ...", "the grouped list is never stored", where(g))
+    # adoption: AceGroup.items setter keeps Ace/Remark objects themselves
+    rep.instance()
+    s = ctx.func("AceGroup.items.setter")
+    scfg = ctx.cfg(s)
+    loops = [n for n in scfg.live if n.kind == "for"]
+    adopted = False
+    if loops:
+        var = src(loops[0].ast.target)
+        for path in loop_body_paths(scfg, loops[0]):
+            atoms = [(n.ast, lab == "T") for n, lab in path if n.kind == "cond" and lab in ("T", "F")]
+            if any("isinstance" in src(t) and "Ace" in src(t) and tr for t, tr in atoms):
+                pl = []
+                for node, lab in path:
+                    if node.kind == "stmt" and node.ast is not None:
+                        pl += element_placements(node.ast, var)
+                adopted = len(pl) == 1 and pl[0][0] == "append"
+    if adopted:
+        rep.ok("AceGroup.items setter", "adopts Ace/Remark objects as they are (same object appended): identifiers survive grouping", where=where(s))
+    else:
+        rep.violation("AceGroup.items.setter", "object branch", "grouped entries are not the same objects as before (copied, filtered or dropped)", where(s))
+
+
+def r15_3(ctx: Ctx, rep: Report) -> None:
+    rep.rule("R15.3")
+    for cn in ("Ace", "Remark", "AceGroup", "Acl"):
+        cls = ctx.cls(cn)
+        f = cls.methods.get("__lt__")
+        if f is None:
+            continue
+        rep.instance()
+        other = f.params[1]
+        bad = None
+        seen_seq_test = False
+        for p in function_paths(ctx.cfg(f)):
+            if p.raises:
+                continue
+            first_seq = None
+            prior_field = None
+            for t, truth in p.atoms:
+                if isinstance(t, ast.Compare) and len(t.ops) == 1 and isinstance(t.ops[0], (ast.Eq, ast.NotEq)):
+                    cl, cr = chain(t.left), chain(t.comparators[0])
+                    if cl and cr and cl[-1].lstrip("_") == cr[-1].lstrip("_") == "sequence" and {cl[0], cr[0]} == {"self", other}:
+                        differ = truth == isinstance(t.ops[0], ast.NotEq)
+                        first_seq = differ
+                        break
+                # anything that reads a field of self/other before the sequence test (hasattr/isinstance are not fields)
+                if not (isinstance(t, ast.Call) and isinstance(t.func, ast.Name) and t.func.id in ("hasattr", "isinstance")):
+                    prior_field = t
+            if first_seq is None:
+                continue
+            seen_seq_test = True
+            if prior_field is not None:
+                bad = (f"`{snippet(prior_field)}` is consulted before the sequence numbers", p)
+                break
+            if first_seq:
+                r = deep_resolve(p.ret, p.env) if p.ret is not None else None
+                ok = isinstance(r, ast.Compare) and len(r.ops) == 1 and isinstance(r.ops[0], ast.Lt) and (chain(r.left) or [""])[0] == "self" and (chain(r.left) or [""])[-1].lstrip("_") == "sequence" and (chain(r.comparators[0]) or [""])[0] == other and (chain(r.comparators[0]) or [""])[-1].lstrip("_") == "sequence"
+                if not ok:
+                    bad = (f"with different sequence numbers the result is `{snippet(p.ret) if p.ret is not None else None}`, not self.sequence < other.sequence", p)
+                    break
+        if bad:
+            rep.violation(f.qualname, bad[0], "sorting restores the numbered order only if differing sequence numbers decide the comparison first", where(f), inp="acl.resequence(); shuffle items; acl.sort()")
+        elif not seen_seq_test:
+            rep.violation(f.qualname, "sequence comparison", "the ordering does not compare sequence numbers at all", where(f))
+        else:
+            rep.ok(f"{f.qualname}", "differing sequence numbers decide first: self.sequence < other.sequence", where=where(f))
+    rep.floor(4, "__lt__ of Ace, Remark, AceGroup, Acl")
+    r03_3(ctx, rep, pairs=SIBLINGS[2:], rid="R15.3")
+
+
+def r15_4(ctx: Ctx, rep: Report) -> None:
+    rep.rule("R15.4")
+    for cn in ("AceGroup", "Acl", "AddrGroup"):
+        cls = ctx.cls(cn)
+        g = cls.getters.get("items") or cls.lookup_getter("items")
+        if g is None:
+            continue
+        rep.instance()
+        rets = [n.value for n in own_nodes(g.node) if isinstance(n, ast.Return)]
+        if len(rets) == 1 and rets[0] is not None and src(rets[0]) == "self._items":
+            rep.ok(f"{cn}.items getter", "returns the stored list itself: in-place list operations act on the ACL", where=where(g))
+        else:
+            rep.violation(g.qualname, f"return {snippet(rets[0]) if rets and rets[0] is not None else ''}", "the getter hands out something other than the stored list: sort/reverse/insert/pop through the list interface silently do nothing", where(g), inp="acl.sort(); acl.items unchanged")
+    group = ctx.cls("Group")
+    inplace = {"sort", "reverse", "insert", "pop", "remove", "append", "extend", "delete", "add", "update", "__delitem__"}
+    for name in sorted(inplace):
+        m = group.methods.get(name)
+        if m is None:
+            continue
+        rep.instance()
+        w = {(a, k) for (r, a, k) in ctx.effects.summary(m).writes if r == "self"}
+        expect = {"delete": {"remove"}, "add": {"append"}, "update": {"add", "append", "extend"}, "__delitem__": {"__delitem__"}}.get(name, {name})
+        calls_self_items = any(
+            isinstance(n, ast.Call) and isinstance(n.func, ast.Attribute) and n.func.attr in expect and src(n.func.value) in ("self.items", "self")
+            for n in own_nodes(m.node)
+        ) or (name == "__delitem__" and any(isinstance(n, ast.Delete) for n in own_nodes(m.node)))
+        extra = {x for x in w if x[0] not in ("items",)}
+        if not calls_self_items:
+            rep.violation(m.qualname, "body", "the list operation does not act on self.items", where(m))
+        elif extra:
+            rep.violation(m.qualname, f"writes {sorted(extra)}", "a list operation must only rearrange self.items (a block moves as a unit, its inner list untouched)", where(m))
+        else:
+            rep.ok(m.qualname, "acts on self.items in place only", where=where(m))
+    rep.floor(10, "items getters and Group list operations")
+
+
+def r15_5(ctx: Ctx, rep: Report) -> None:
+    rep.rule("R15.5")
+    for q in ("AceGroup.tcam_count", "Acl.tcam_count"):
+        f = ctx.func(q)
+        rep.instance()
+        w = sorted(ctx.effects.self_writes(f))
+        if w:
+            rep.violation(q, f"writes {w}", "the estimate is a query: it must not change the ACL", where(f))
+        else:
+            rep.ok(f"{q}: write-set", "empty", where=where(f))
+    f = ctx.func("Acl.tcam_count")
+    rep.instance()
+    ok = False
+    for p in function_paths(ctx.cfg(f)):
+        if p.raises or p.ret is None:
+            continue
+        r = deep_resolve(p.ret, p.env)
+        incs = [n for n, _ in p.nodes if n.kind == "stmt" and isinstance(n.ast, ast.AugAssign)]
+        base_super = any("super().tcam_count()" in src(v) for v in p.env.values()) or (r is not None and "super().tcam_count()" in src(r))
+        plus_one = (len(incs) == 1 and isinstance(incs[0].ast.op, ast.Add) and isinstance(incs[0].ast.value, ast.Constant) and incs[0].ast.value.value == 1) or (isinstance(r, ast.BinOp) and isinstance(r.op, ast.Add) and any(isinstance(x, ast.Constant) and x.value == 1 for x in (r.left, r.right)) and not incs)
+        ok = base_super and plus_one
+    if ok:
+        rep.ok("Acl.tcam_count", "super().tcam_count() + 1", where=where(f))
+    else:
+        rep.violation("Acl.tcam_count", "value", "the ACL estimate must be the group estimate plus exactly one", where(f))
+
+
+def run(ctx: Ctx, rep: Report, tier: str) -> None:
+    r15_1(ctx, rep)
+    r15_2(ctx, rep)
+    r15_3(ctx, rep)
+    r15_4(ctx, rep)
+    r15_5(ctx, rep)
